@@ -94,6 +94,11 @@ def forEachS {α β σ : Type} (f : σ → α → Res (β × σ)) : σ → List 
       | .error e => .error e
       | .ok (ys, s'') => .ok (y :: ys, s'')
 
+/-- `a == b` on two GoalRegion objects: `GoalRegion.__eq__` (planning/goal.py) compares what the two objects HOLD (state lists,
+    by value), whichever objects they are - two distinct objects may be equal (twins), and an object not yet moved may equal one
+    that has been moved already.  Never the identity test `a is b` (equality of the references). -/
+def goalEq (a b : List State) : Bool := reprStr a == reprStr b
+
 /-- dynamic type tests of `State.translate_rotate` on the `position` attribute -/
 def posIsSome : Pos → Bool | .none => false | _ => true          -- `hasattr(self, "position") and self.position is not None`
 def posIsArray : Pos → Bool | .pt _ => true | _ => false          -- `isinstance(self.position, ValidTypes.ARRAY)`
